@@ -265,18 +265,26 @@ def di_setup(ctx):
                                                                "__getattr__": lambda c, s_, a, k: prev_store[a[0]]})
     value = Rec("Namespace", methods={"__getitem__": lambda c, s_, a, k: "pkg.New" if changed else "pkg.Old"})
 
+    open_cms = []
+    found = {k: Rec("Action", attrs={"dest": k}) for k in keys}
+
     def check(c, s_, a, k):
+        c.event("check", a[0], a[1], a[2], a[3], list(open_cms))
         if fate[a[2]] == "known-but-ill-typed":
             raise PyRaise(ExcVal("TypeError", origin="_check_value_key"))
         return a[1]
 
+    given_as = ["parser", "action"][ctx.choose(2, "given-as")]
     parser = Rec("ArgumentParser", attrs={"parser_mode": "yaml", "logger": Rec("Logger", methods={"debug": lambda c, s_, a, k: None})}, methods={"_check_value_key": check})
-    from contracts.parse_models import noop_cm
-    calls = {"subclass_spec_as_namespace": lambda c, a, k: a[0], "_find_action": lambda c, a, k: None if fate[a[1]] == "unknown-to-the-new-class" else Rec("Action"),
-             "Namespace": lambda c, a, k: Rec("Namespace")}
+    sak = {"fail_untyped": True}
+    action = Rec("ActionTypeHint", attrs={"sub_add_kwargs": sak, "logger": Rec("Logger", methods={"debug": lambda c, s_, a, k: None})})
+    calls = {"subclass_spec_as_namespace": lambda c, a, k: a[0], "_find_action": lambda c, a, k: (c.event("find", a[0], a[1]), None if fate[a[1]] == "unknown-to-the-new-class" else found[a[1]])[1],
+             "Namespace": lambda c, a, k: Rec("Namespace", attrs={"fresh": True}),
+             "ActionTypeHint.get_class_parser": lambda c, a, k: (c.event("class-parser", a[0], a[1]), parser)[1]}
     consts = {"ActionTypeHint": ClassRef("ActionTypeHint")}
-    return Setup(env={"parser_or_action": parser, "prev_val": prev, "value": value}, calls=calls, consts=consts, cms={"parser_context": noop_cm("parser_context")},
-                 data=dict(changed=changed, fate=fate, init_store=init_store, keys=keys))
+    cms = {"parser_context": (lambda c, a, k: open_cms.append(dict(k)), lambda c, t, e: (open_cms.pop(), False)[1])}
+    return Setup(env={"parser_or_action": parser if given_as == "parser" else action, "prev_val": prev, "value": value}, calls=calls, consts=consts, cms=cms,
+                 data=dict(changed=changed, fate=fate, init_store=init_store, init_before=dict(init_store), keys=keys, given_as=given_as, parser=parser, sak=sak, found=found, open_cms=open_cms))
 
 
 def di_post(ctx, st, result):
@@ -284,6 +292,18 @@ def di_post(ctx, st, result):
     remaining = set(d["init_store"])
     want = set(d["keys"]) if not d["changed"] else {k for k in d["keys"] if d["fate"][k] == "accepted-by-the-new-class"}
     ctx.oblige("post", "on-a-class-change-exactly-the-previous-init_args-the-new-class-rejects-are-dropped;without-a-change-none", remaining == want, note=f"{d['fate']} changed={d['changed']} remaining={sorted(remaining)}")
+    ctx.oblige("post", "the-init_args-that-are-kept-keep-their-values", all(d["init_store"][k] is d["init_before"][k] for k in remaining))
+    if d["changed"]:
+        cp = [e for e in ctx.events if e[0] == "class-parser"]
+        if d["given_as"] == "action":
+            ctx.oblige("post", "given-the-argument's-action,the-judge-is-the-parser-of-the-*new*-class(built with the action's own settings)", len(cp) == 1 and cp[0][1] == "pkg.New" and cp[0][2] is d["sak"])
+        else:
+            ctx.oblige("post", "given-a-parser,that-parser-is-the-judge", not cp)
+        ck = [e for e in ctx.events if e[0] == "check"]
+        known = [k for k in d["keys"] if d["fate"][k] != "unknown-to-the-new-class"]
+        ctx.oblige("post", "each-previous-init_arg-the-new-class-knows-is-checked-by-the-new-class's-own-action,strictly(not leniently),on-its-own-value",
+                   [e[3] for e in ck] == known and all(e[1] is d["found"][e[3]] and e[2] is d["init_before"][e[3]] and isinstance(e[4], Rec) and e[4].attrs.get("fresh") and e[5] == [{"lenient_check": False, "load_value_mode": "yaml"}] for e in ck))
+        ctx.oblige("post", "every-lookup-is-made-in-the-judging-parser", all(e[1] is d["parser"] for e in ctx.events if e[0] == "find") and not d["open_cms"])
 
 
 def di_raises(ctx, st, exc):
